@@ -520,8 +520,11 @@ def main():
     if harness_problem:
         print("HARNESS PROBLEM: " + harness_problem)
         sys.exit(2)
-    if len(lines) < nruns * 0.9:
-        print("HARNESS PROBLEM: only %d of %d runs completed" % (len(lines), nruns))
+    got = set(dd["run"] for dd in lines)
+    missing = [i for i in range(nruns) if i not in got and i not in set(c[0] for c in crashes)]
+    if missing:
+        # every run must be accounted for: a result line that is lost could have been a violation
+        print("HARNESS PROBLEM: %d of %d runs left no result line (first: %s)" % (len(missing), nruns, missing[:5]))
         sys.exit(2)
     sys.exit(0)
 
